@@ -47,6 +47,7 @@ def protocols(mpc, l, k):
     P['lsb'] = (T, allv, lambda a: mpc.lsb(a), lambda x: None)
     P['mod3'] = (T, allv, lambda a: mpc._mod(a, 3), lambda x: None)
     P['to_bits'] = (T, allv, lambda a: mpc.to_bits(a), lambda x: None)
+    P['to_bits_l1'] = (T, allv, lambda a: mpc.to_bits(a, 1), lambda x: None)      # fewer bits than the type has: the mask must still cover a
     P['trailing_zeros'] = (T, allv, lambda a: mpc.trailing_zeros(a), lambda x: None)
     P['is_zero_public'] = (T, allv, lambda a: mpc.is_zero_public(a), lambda x: x == 0)       # the result itself is public
     P['reciprocal'] = (T, [v for v in allv if v], lambda a: mpc.reciprocal(a), lambda x: None)
@@ -99,7 +100,7 @@ def jobs(tier, seed):
     # l + 2 >= k keeps is_zero_public on its one-draw (large-field) blinding path; otherwise it draws pairs of field
     # elements in a retry loop and the outcome tree has |F|^2 branches per round
     params = [(2, 3), (2, 4)] if tier == 'quick' else [(2, 3), (2, 4), (3, 4), (3, 5)]
-    names = ['sgn', 'sgn_LT', 'sgn_EQ', 'lsb', 'mod3', 'to_bits', 'trailing_zeros', 'is_zero_public', 'reciprocal', 'convert_int', 'trunc', 'fxp_mul']
+    names = ['sgn', 'sgn_LT', 'sgn_EQ', 'lsb', 'mod3', 'to_bits', 'to_bits_l1', 'trailing_zeros', 'is_zero_public', 'reciprocal', 'convert_int', 'trunc', 'fxp_mul']
     for (l, k) in params:
         for n in names:
             if n in ('trunc', 'fxp_mul') and l > 2:
